@@ -188,7 +188,8 @@ def blockish(it):
     return it[0] != "V"
 
 
-def py_spec(tlk, items):
+def py_spec_pieces(tlk, items):
+    """[(tag or None, text)]: for every text and every tag (in template order) what it contributes"""
     trim, lstrip, keep = tlk[0] == "1", tlk[1] == "1", tlk[2] == "1"
     head, tail = alternate(items)
     if not keep:
@@ -202,16 +203,102 @@ def py_spec(tlk, items):
     for i, t in enumerate(texts):
         left = (blockish(tags[i - 1]), tags[i - 1][4] if tags[i - 1][0] == "R" else tags[i - 1][2]) if i > 0 else None
         right = (blockish(tags[i]), tags[i][1]) if i < len(tags) else None
-        out.append(text_out(t, trim, lstrip, i == 0, left, right))
+        out.append((None, text_out(t, trim, lstrip, i == 0, left, right)))
         if i < len(tags):
             g = tags[i]
             if g[0] == "V":
-                out.append(VM)
+                out.append((g, VM))
             elif g[0] == "B":
-                out.append(BM)
+                out.append((g, BM))
             elif g[0] == "R":
-                out.append(text_out(g[5], trim, lstrip, False, (True, g[2]), (True, g[3])))
-    return "".join(out)
+                out.append((g, text_out(g[5], trim, lstrip, False, (True, g[2]), (True, g[3]))))
+            else:
+                out.append((g, ""))
+    return out
+
+
+def py_spec(tlk, items):
+    return "".join(t for _, t in py_spec_pieces(tlk, items))
+
+
+OPENERS = {"for": "endfor", "macro": "endmacro", "set": "endset", "filter": "endfilter", "block": "endblock",
+           "call": "endcall", "with": "endwith", "autoescape": "endautoescape", "if": "endif"}
+
+
+def eval_pieces(pieces):
+    """what a template of the wrap stream renders, given what every text contributes: a small
+    evaluator for for / macro / call / set-block / filter / block / with / autoescape / if bodies"""
+    pos = 0
+    macros, setvals = {}, {}
+
+    def body(closer, caller):
+        nonlocal pos
+        out = []
+        while pos < len(pieces):
+            g, text = pieces[pos]
+            pos += 1
+            if g is None or g[0] in "CR":
+                out.append(text)
+                continue
+            word = g[3].split()
+            if g[0] == "V":
+                name = g[3].strip()
+                if name == "v":
+                    out.append("V")
+                elif name == "x":
+                    out.append(setvals["x"])
+                elif name == "m()":
+                    out.append(macros["m"](None))
+                elif name == "caller()":
+                    out.append(caller() if caller else "")
+                else:
+                    raise ValueError(name)
+                continue
+            if word[0] == closer:
+                return "".join(out)
+            kind = word[0]
+            start = pos
+            if kind == "for":
+                inner = body("endfor", caller)
+                out.append(inner * 2)
+            elif kind == "macro":
+                # the body is rendered at each call; remember where it starts
+                mstart = pos
+                body("endmacro", None)
+                mend = pos
+
+                def call_macro(c, mstart=mstart, mend=mend):
+                    nonlocal pos
+                    save = pos
+                    pos = mstart
+                    r = body("endmacro", c)
+                    pos = save
+                    return r
+                macros["m"] = call_macro
+            elif kind == "set":
+                setvals["x"] = body("endset", caller)
+            elif kind == "filter":
+                out.append(body("endfilter", caller).upper())
+            elif kind == "call":
+                cstart = pos
+                body("endcall", caller)
+                cend = pos
+
+                def the_caller(cstart=cstart):
+                    nonlocal pos
+                    save = pos
+                    pos = cstart
+                    r = body("endcall", caller)
+                    pos = save
+                    return r
+                out.append(macros["m"](the_caller))
+            elif kind in ("block", "with", "autoescape", "if"):
+                out.append(body(OPENERS[kind], caller))
+            else:
+                raise ValueError(kind)
+        return "".join(out)
+
+    return body(None, None)
 
 
 # ------------------------------------------------------------------ delimiter-freeness
@@ -289,6 +376,19 @@ def render_tok(tok):
     return "".join(out)
 
 
+def kern_words(n):
+    alpha = [b"-", b"{", b"%"]
+    out, level = [b""], [b""]
+    for _ in range(n):
+        level = [w + c for w in level for c in alpha]
+        out += level
+    return out
+
+
+def kern_digit(i):
+    return "." if i < 0 else "0123456789abcdefghijklmnopqrstuvwxyz"[i]
+
+
 def fields_of(parts):
     return {p.split("=", 1)[0]: p.split("=", 1)[1] for p in parts if "=" in p}
 
@@ -312,11 +412,13 @@ def line_expect(tlk, nl, lines):
         this_nl = "" if (i + 1 == len(items) and no_final) else nlc
         if it[0] == "X":
             t = unhex(it[1:])
-            out.append(t.replace("\x01", "V") + this_nl)
+            # a raw block at the end of the line: trim_blocks takes the line break
+            eaten = t.endswith("\x03") and tlk[0] == "1" and this_nl != ""
+            out.append(t.replace("\x01", "V").replace("\x03", "r") + ("" if eaten else this_nl))
             if t + this_nl != "":
-                last_src_is_text_nl = this_nl != ""
+                last_src_is_text_nl = this_nl != "" and not eaten
         elif it[0] == "Z":
-            out.append(unhex(it[1:].split(".")[0]).replace("\x01", "V"))
+            out.append(unhex(it[1:].split(".")[0]).replace("\x01", "V").replace("\x03", "r"))
             last_src_is_text_nl = False
         else:
             last_src_is_text_nl = False
@@ -365,7 +467,7 @@ def run(r):
         return
     # the streams are produced and checked part by part to bound memory
     nch = 8 if r.tier == "thorough" else 1
-    parts = [("seg-exh", i, nch) for i in range(nch)] + [("seg-sample", 0, 1), ("seg-fam", 0, 1), ("prog", 0, 1), ("line", 0, 1), ("rand", 0, 1), ("cfg", 0, 1)]
+    parts = [("seg-exh", i, nch) for i in range(nch)] + [("seg-sample", 0, 1), ("seg-fam", 0, 1), ("prog", 0, 1), ("line", 0, 1), ("rand", 0, 1), ("kern", 0, 1), ("entry", 0, 1), ("wrap", 0, 1), ("cfg", 0, 1)]
     r.exhaustive = False
     for which, i, n in parts:
         rc, out, err = r.harness(exe, ["gen", r.tier, which, str(i), str(n)])
@@ -403,8 +505,26 @@ def check_lines(r, lines, model, verbose=False):
             r.broken.append(f"driver line {i} is for another case")
             return
         ml = fields_of(mparts)
-        if stream == "seg":
-            tlk, famenc, segs = f[1], f[2], f[3]
+        if stream == "kern":
+            r.count(case, True)
+            which, needle = f[1], bytes.fromhex(f[2])
+            hay = kern_words(8)
+            if which == "memstr":
+                want = "".join(kern_digit(h.find(needle)) for h in hay)
+            else:
+                want = "".join(kern_digit(h.find(needle[:1])) for h in hay)
+            r.count(None, True, n=len(hay) - 1)
+            r.hist["kern"][which + " needle length %d" % len(needle)] += len(hay)
+            if ml.get("res") != want:
+                r.broken.append(f"Lean {which} kernel differs from the leftmost occurrence (Python str.find) on needle {needle!r}")
+            if fl["res"] != want:
+                bad = next(i for i in range(len(hay)) if i >= len(fl["res"]) or fl["res"][i] != want[i])
+                got = fl["res"][bad] if bad < len(fl["res"]) else "?"
+                r.oracle_failure(case, f"utils::{which}({hay[bad]!r}, {needle!r}) returned {got!r}, the leftmost occurrence is {want[bad]!r}",
+                                 f"kern/{which}")
+            continue
+        if stream in ("seg", "entry", "wrap"):
+            tlk, famenc, segs = f[1], f[2], f[-1]
             if famenc not in fam_cache:
                 fam_cache[famenc] = parse_fam(famenc)
             fam, d = fam_cache[famenc]
@@ -433,6 +553,18 @@ def check_lines(r, lines, model, verbose=False):
                     r.model_disagreement(case, tok, mtok)
             if ml.get("free") == "1" and not free:
                 r.broken.append(f"Lean delimFree holds but the Python check says not free: {case}")
+            if stream == "entry":
+                # every way of compiling and rendering the source agrees (whatever the source is)
+                r.hist["entry-family"][fam] += 1
+                base = fl.get("render_str", "?")
+                for k in ("render_named_str", "template_from_str", "template_from_named_str", "render_captured",
+                          "render_captured_to", "add_template", "clone", "late_add", "loader"):
+                    r.hist["entry-point"][k] += 1
+                    if fl.get(k) != base:
+                        r.oracle_failure(case, f"{k} gives {fl.get(k)} but render_str gives {base} (source {src!r})", f"entry/{k}")
+                if fl.get("late_loader") != fl.get("flipped"):
+                    r.oracle_failure(case, f"a loader-backed template compiled after the settings were changed gives {fl.get('late_loader')}, "
+                                           f"render_str under those settings {fl.get('flipped')} (source {src!r})", "entry/late_loader")
             if not free:
                 continue
             # oracle: the rules
@@ -455,6 +587,22 @@ def check_lines(r, lines, model, verbose=False):
             got = render_tok(tok)
             if got != spec_py:
                 r.oracle_failure(case, f"lexer produced {got!r}, the whitespace rules give {spec_py!r} (source {src!r})", site)
+                continue
+            if stream == "entry":
+                base = fl.get("render_str", "?")
+                nb = sum(1 for it in items if it[0] == "B")
+                wantr = "ok:" + spec_py.replace(VM, "V").replace(BM, "").encode().hex()
+                if nb % 2 == 0 and base != wantr:
+                    r.oracle_failure(case, f"render_str gave {base}, the rules give {wantr} (source {src!r})", "entry/render_str")
+                continue
+            if stream == "wrap":
+                kind = f[3]
+                r.hist["wrap-kind"][kind] += 1
+                want = eval_pieces(py_spec_pieces(tlk, items))
+                o = fl["out"]
+                if o != "ok:" + want.encode().hex():
+                    shown = unhex(o[3:]) if o.startswith("ok:") else o
+                    r.oracle_failure(case, f"{kind} body renders {shown!r}, the rules give {want!r} (source {src!r})", f"wrap/{kind}")
                 continue
             if any(it[0] in "VB" and it[3] not in (" v ", "v", " if t ", "if t", " endif ", "endif") for it in items):
                 r.hist["model"]["richer interior: token oracle only"] += 1
@@ -517,6 +665,14 @@ def check_lines(r, lines, model, verbose=False):
                     r.broken.append(f"Lean specRender and the Python expectation disagree on {case}: {spec_lean!r} vs {want!r}")
             else:
                 r.hist["theorem"]["line stream: outside the hypotheses"] += 1
+            raw_at_eol = any(x[:1] == "X" and unhex(x[1:]).endswith("\x03") for x in ls.split(";"))
+            if raw_at_eol:
+                # the tag form is rendered with trim_blocks on, which also applies to that raw block
+                if o != "ok:" + want.encode().hex():
+                    shown = unhex(o[3:]) if o.startswith("ok:") else o
+                    r.oracle_failure(case, f"line form renders {shown!r}, expected {want!r} (source {unhex(fl['src'])!r})",
+                                     f"line/{fam}/nl={nl}/raw")
+                continue
             if not e.startswith("ok:") or unhex(e[3:]) != want:
                 r.broken.append(f"line stream: the equivalent tag form does not render the expected text on {case}: {e} vs {want!r}")
                 continue
